@@ -231,6 +231,39 @@ def names(chain):
     return [c[0] for c in chain]
 
 
+class KeepsNonNone(FnCase):
+    """json.load / csv.load end with a filter that drops the None results of the parsing stage (empty lines, ignored errors) and NOTHING else: one
+    item per object, also when the object is falsy ({} , [], 0, '')"""
+
+    def __init__(self, name, module, factory, fargs, e2e_check):
+        self.name = f'{name}/final_filter'; self.module = module; self.factory = factory; self.fargs = fargs; self.e2e_check = e2e_check
+
+    def setup(self, eng, p):
+        self.eng = eng
+        f = eng.world.closure_of(self.module, self.factory)
+        (q, _load), = eng.call(p, f, list(self.fargs), {})
+        (q, obs), = eng.call(q, _load, [Host('source', is_mux=False, name='source')], {})
+        chain = chain_of(eng, q, obs)
+        preds = [env['args'][0] for qual, env in chain if qual == 'rx.filter' and env.get('args') and isinstance(env['args'][0], Closure)]
+        self.n_filters = len([1 for qual, env in chain if qual == 'rx.filter'])
+        if len(preds) != 1:
+            raise Unsupported(f'{self.name}: expected exactly one filter with an in-repo predicate at the end of the pipeline')
+        q.calls = []; q.pc = []; self.path = q
+        return preds[0], [SVal(XV)], {}
+
+    def on_exception(self, q): return BoolVal(False)
+
+    def ensures(self, q, ret):
+        r = self.eng.truth(q, ret)
+        r = BoolVal(r) if isinstance(r, bool) else r
+        return [('keeps_exactly_the_non_None_results', r == Not(V.is_VNone(XV))), ('single_filter', BoolVal(self.n_filters == 1))]
+
+    def e2e(self):
+        from ..bounded import io as bio
+        from ..bounded.mux import first_new_failure
+        return first_new_failure(getattr(bio, self.e2e_check)({}))
+
+
 def json_cases():
     out = []
     J = 'rxsci.container.json'
@@ -273,6 +306,7 @@ def json_cases():
                     return [('empty_line_or_ignored_error_dropped', Or(Length(XS) == 0, BoolVal(ign and len(calls) == 1)))]
                 return [('parsed_once', And(BoolVal(len(calls) == 1 and 'loads' in calls[0][0]), calls[0][1][0] == V.VStr(XS), Length(XS) > 0))]
         out.append(LoadJson())
+    out.append(KeepsNonNone('json.load', J, 'load', [0, False], 'check_c19'))
     # pipeline terms
     for comp in (None, 'gzip', 'zstd'):
         def dump_term(self, q, chain, comp=comp):
@@ -347,6 +381,7 @@ def csv_cases():
         shape = len(ns) >= 2 and 'io.file.read' in ns[0] and 'line.unframe' in ns[1]
         renv = chain[0][1] if shape else {}
         return [('reads_in_64KiB_chunks_then_unframes_lines', BoolVal(shape and renv.get('size') == 64 * 1024 and renv.get('file') is fname and renv.get('open_obj') is opn))]
+    out.append(KeepsNonNone('csv.load', C, 'load', [Host('pipe', fns=[]), 0], 'check_c18'))
     out.append(FileTerm('csv.load_from_file', C, 'load_from_file', [fname], {'parse_line': pl, 'skip': 0, 'encoding': None, 'open_obj': opn}, load_term, needs_source=False))
     return out
 
@@ -545,8 +580,85 @@ class FileWrite(FnCase):
         return [('a_file_object_given_by_the_caller_is_not_closed', BoolVal(len(calls) == 0)), ('error_forwarded', q.trace == Concat(T0, Unit(em(OUT, Ev.Err(XV)))))]
 
 
+class FileWritePath(FnCase):
+    """rxsci.io.file.write(<path>): the file is opened once at subscription with the given mode, and it is CLOSED (flushed) before the completion or the error
+    is forwarded -- a consumer that starts reading when it sees the completion finds the whole content"""
+
+    def __init__(self, handler):
+        self.handler = handler; self.name = f'io.file.write[path]/{handler}'
+
+    def setup(self, eng, p):
+        self.eng = eng
+        self.opn = Host('opaque', name='open_obj')
+        q, hs, obs = build_plain(eng, p, 'rxsci.io.file', 'write', ['out.bin'], {'mode': 'wb', 'encoding': None, 'open_obj': self.opn})
+        self.opened = [c for c in q.calls if c[0].startswith('open_obj')]
+        q.trace = T0; q.calls = []; q.pc = []; self.path = q
+        return hs[self.handler], ([SVal(XV)] if self.handler != 'on_completed' else []), {}
+
+    def on_exception(self, q):
+        return BoolVal(isinstance(q.exc, ExcV) and q.exc.cls == 'LibError')
+
+    def ensures(self, q, ret):
+        closes = [c for c in q.calls if c[0].endswith('.close')]
+        writes = [c for c in q.calls if c[0].endswith('.write')]
+        out = [('file_opened_once_at_subscription', BoolVal(len(self.opened) == 1))]
+        if self.handler == 'on_next':
+            return out + [('item_written_exactly_once', BoolVal(len(writes) == 1 and not closes)), ('item_written_unchanged', (writes[0][1][0] == XV) if len(writes) == 1 and writes[0][1] else BoolVal(False)),
+                          ('nothing_emitted', q.trace == T0)]
+        fwd = Unit(em(OUT, Ev.Done)) if self.handler == 'on_completed' else Unit(em(OUT, Ev.Err(XV)))
+        return out + [('file_closed_in_this_call_before_forwarding', BoolVal(len(closes) == 1 and not writes)), ('forwarded', q.trace == Concat(T0, fwd))]
+
+    def e2e(self):
+        from ..bounded import io as bio
+        from ..bounded.mux import first_new_failure
+        return first_new_failure(bio.check_c19({}))
+
+
+class ConnectDelegates(FnCase):
+    """rxsci.mux.muxconnectable.MuxConnectableProxy.connect: every call connects the wrapped connectable (with the scheduler it was given) and returns
+    that connection; the proxy keeps nothing between calls (a disposed first connection must not be handed to a second subscriber)"""
+    name = 'MuxConnectableProxy.connect'
+    internal_representation = True       # a refutation through an arbitrary value of a field the contract does not know is a candidate: needs a failing input
+
+    def setup(self, eng, p):
+        M = 'rxsci.mux.muxconnectable'
+        self.eng = eng
+        self.conn = Host('connectable', name='wrapped', subscribe=None)
+        fields = {'connectable': self.conn, '_subscribe': None}
+        cls = eng.world.module(M).classes['MuxConnectableProxy']
+        assigned = set()
+        for fn_ in cls.body:
+            if isinstance(fn_, ast.FunctionDef) and fn_.name != '__init__':
+                for n_ in ast.walk(fn_):
+                    tg = n_.targets if isinstance(n_, ast.Assign) else ([n_.target] if isinstance(n_, (ast.AugAssign, ast.AnnAssign)) else [])
+                    for t_ in tg:
+                        for a_ in ast.walk(t_):
+                            if isinstance(a_, ast.Attribute) and isinstance(a_.value, ast.Name) and a_.value.id == 'self' and isinstance(a_.ctx, ast.Store):
+                                assigned.add(a_.attr)
+        self.havoc = sorted(assigned - set(fields))
+        for k_ in self.havoc:
+            fields[k_] = SVal(Const(f'field_{k_}', Val))          # whatever an earlier call left there
+        self.obj = eng.new_obj(p, 'obj', ('obj', fields, (M, 'MuxConnectableProxy')))
+        self.sched = Host('opaque', name='sched')
+        p.ghost['subs'] = []
+        return eng.world.class_method((M, 'MuxConnectableProxy'), 'connect'), [self.obj], {'scheduler': self.sched}
+
+    def on_exception(self, q): return BoolVal(False)
+
+    def ensures(self, q, ret):
+        subs = [d for (o, d) in q.ghost.get('subs', []) if o is self.conn]
+        return [('connects_the_wrapped_connectable_once', BoolVal(len(subs) == 1 and subs[0].get('connect') is True)),
+                ('returns_that_connection', BoolVal(isinstance(ret, Host) and ret.kind == 'disposable')),
+                ('keeps_no_state_between_calls', BoolVal(not self.havoc))]
+
+    def e2e(self):
+        from ..bounded.mux import check_c08, first_new_failure
+        return first_new_failure(check_c08({}))
+
+
 def io_cases():
-    return [FileRead(True, True), FileRead(False, True), FileRead(True, False), FileWrite('on_next'), FileWrite('on_completed'), FileWrite('on_error')]
+    return [FileRead(True, True), FileRead(False, True), FileRead(True, False), FileWrite('on_next'), FileWrite('on_completed'), FileWrite('on_error'),
+            FileWritePath('on_next'), FileWritePath('on_completed'), FileWritePath('on_error')]
 
 
 _STATE_E2E = {'compression': 'check_c16', 'codec': 'check_c17', 'json': 'check_c19', 'csv': 'check_c18', 'parquet': 'check_c20', 'framing': 'check_c15', 'io': 'check_c19'}
